@@ -17,7 +17,7 @@ META = dict(
     ),
     stubs=[],
     assumptions=["REAL theory", "geometry (corner, edges), every cell value, alpha, beta, translation vector and scale factor symbolic"],
-    outside=["n > 4 per axis", "NaN/inf values", "integer overflow for int dtypes"],
+    outside=["n > 4 per axis", "NaN/inf values", "integer overflow of integer-dtype field VALUES (integer-typed corners with large extents are covered natively)"],
 )
 
 
@@ -227,8 +227,38 @@ def h_refusals(sx, cfg):
             sx.check(name, False)
 
 
+def h_int_corners(sx, cfg):
+    """integer-typed corners with large extents (native): the total, the direction-by-direction integral and mean*extent agree
+    (products of integer edge lengths must not wrap around)"""
+    df = lib.load()
+    with sx.native():
+        n = tuple(cfg["n"])
+        nd = len(n)
+        ext = cfg["extent"]
+        p1 = tuple(int(-(a + 1) * 7) for a in range(nd))
+        p2 = tuple(int(p1[a] + ext * (a + 1)) for a in range(nd))
+        mesh = df.Mesh(p1=p1 if nd > 1 else p1[0], p2=p2 if nd > 1 else p2[0], n=n if nd > 1 else n[0])
+        rng = np.random.default_rng(3)
+        vals = rng.normal(size=(*n, 2))
+        f = df.Field(mesh, nvdim=2, value=vals)
+        cell = [(p2[a] - p1[a]) / n[a] for a in range(nd)]
+        vol = float(np.prod([float(c) for c in cell]))
+        want = vals.reshape(-1, 2).sum(axis=0) * vol
+        tot = f.integrate()
+        sx.check("total", bool(np.allclose(tot, want, rtol=1e-12)), got=str(tot), want=str(want))
+        cur = f
+        for d in mesh.region.dims:
+            cur = cur.integrate(d)
+        sx.check("direction-by-direction", bool(np.allclose(cur, want, rtol=1e-12)))
+        extent = float(np.prod([float(p2[a] - p1[a]) for a in range(nd)]))
+        sx.check("mean-times-extent", bool(np.allclose(f.mean() * extent, want, rtol=1e-12)))
+        sx.check("cell-volume", bool(np.isclose(float(mesh.dV), vol, rtol=1e-12)))
+
+
 def tasks(tier):
     t = []
+    for n, ext in (((3, 2, 2), 3_000_000), ((2, 1, 2, 2), 70_000), ((4,), 10**15), ((2, 3), 4_000_000_000)):
+        t.append(dict(harness="h_int_corners", cfg=dict(n=list(n), extent=ext)))
     if tier == "quick":
         shapes = [((3,), 1), ((2,), 2), ((2, 3), 1), ((3, 1), 2), ((2, 1, 3), 1), ((1, 2, 2), 2)]
     else:
